@@ -5,6 +5,7 @@ import TexelVerif.Drv.Mate
 import TexelVerif.Drv.NN
 import TexelVerif.Drv.Time
 import TexelVerif.Drv.Book
+import TexelVerif.Drv.BookBuild
 /-! Line-protocol driver: one operation per stdin line, one canonical reply line.
     Imports model files only (no proofs, no Mathlib), so it links as a `lean_exe`. -/
 
@@ -12,6 +13,7 @@ structure DrvState where
   tt : TT.Table := default
   nn : Drv.NN.State := {}
   pgbook : Drv.Book.St := {}
+  book : Drv.BookBuild.State := {}
 
 def dispatch (st : DrvState) (line : String) : DrvState × String :=
   let toks := (line.trimAscii.toString.splitOn " ").filter (· ≠ "")
@@ -23,6 +25,8 @@ def dispatch (st : DrvState) (line : String) : DrvState × String :=
   | "nn" :: args => let (t, o) := Drv.NN.step st.nn args; ({ st with nn := t }, o)
   | "tm" :: args => (st, Drv.Time.step args)
   | "pgbook" :: args => let (b, o) := Drv.Book.step st.pgbook args; ({ st with pgbook := b }, o)
+  | "book" :: args => let (t, o) := Drv.BookBuild.step st.book args; ({ st with book := t }, o)
+  | "bookrec" :: args => (st, Drv.BookBuild.stepRec args)
   | _ => (st, "bad-op")
 
 partial def loop (h : IO.FS.Stream) (out : IO.FS.Stream) (st : DrvState) : IO Unit := do
